@@ -1092,6 +1092,105 @@ impl<'a> Gen<'a> {
         }
     }
 
+
+    /// C14 end to end: the Pdelay_Req of P2P port k is carried to another port j of the same instance (a looped
+    /// cable through a transparent clock that adds residence time to the correction fields), port j's own
+    /// Pdelay_Resp and Pdelay_Resp_Follow_Up are carried back. Both ends are the real code, so the link delay handed
+    /// to the filter must be the true one-way delay of the simulated cable, whatever the residence times were.
+    pub fn pdelay_loop(&mut self, rng: &Prng) {
+        let np = self.w.ports.len();
+        let p2p: Vec<usize> = self.w.ports.iter().enumerate().filter(|(_, p)| p.p2p).map(|(i, _)| i + 1).collect();
+        if p2p.is_empty() || np < 2 {
+            return self.pdelay_exchange(rng);
+        }
+        let k = *rng.pick(&p2p);
+        let j = loop {
+            let c = 1 + rng.below(np as u64) as usize;
+            if c != k {
+                break c;
+            }
+        };
+        let sent = |obs: &str, port: usize, kind: &str| -> Option<String> {
+            obs.split(" | ").next().unwrap_or("").split(" ; ").find_map(|item| {
+                let rest = item.strip_prefix(&format!("P{port}:send {kind} "))?;
+                rest.split_whitespace().find(|t| t.len() >= 88 && t.bytes().all(|b| b.is_ascii_hexdigit())).map(|t| t.to_string())
+            })
+        };
+        let add_corr = |h: &str, add: i64| -> String {
+            let mut b = crate::out::unhex(h).unwrap_or_default();
+            if b.len() >= 16 {
+                let mut c = [0u8; 8];
+                c.copy_from_slice(&b[8..16]);
+                let v = i64::from_be_bytes(c).wrapping_add(add);
+                b[8..16].copy_from_slice(&v.to_be_bytes());
+            }
+            hex(&b)
+        };
+        let obs = self.emit(format!("P{k} TMR delay"));
+        if self.dead {
+            return;
+        }
+        let Some(id) = self.w.ports[k - 1].last_pdreq else { return };
+        let Some(req) = sent(&obs, k, "evt") else { return };
+        self.w.ports[k - 1].pending_ctx.retain(|c| c != &format!("pdreq:{id}"));
+        // the cable: one-way delay d (any sub-nanosecond value), residence times r1 (request) and r2 (response) in
+        // units of 2^-16 ns as a transparent clock writes them; the responder's t2 and t3 are whole nanoseconds
+        // (its messages carry them to the nanosecond: C10)
+        let ns = 1u128 << 32;
+        let d = 1 + rng.log_u128(50) % (SEC / 1000);
+        let r1 = ((rng.log_u128(36) % (SEC / 1000)) >> 16) << 16;
+        let r2 = ((rng.log_u128(36) % (SEC / 1000)) >> 16) << 16;
+        let (r1, r2) = if rng.chance(1, 4) { (0, 0) } else { (r1, r2) };
+        let t2 = (self.w.t(rng) / ns + 1) * ns + 4 * SEC;
+        let t1 = t2 - d - r1;
+        let t3 = t2 + (rng.log_u128(50) % (SEC / 1000) / ns) * ns;
+        let t4 = t3 + d + r2;
+        self.w.now = t4;
+        self.out.count("gen.pdelay-loop");
+        let obs = self.emit(format!("P{j} EVT {} {}", add_corr(&req, (r1 >> 16) as i64), t2));
+        if self.dead {
+            return;
+        }
+        let Some(resp) = sent(&obs, j, "evt") else { return };
+        let ctx = format!("pdresp:{id}:{}:{k}", hex(&self.w.own_clock));
+        self.w.ports[j - 1].pending_ctx.retain(|c| c != &ctx);
+        let obs = self.emit(format!("P{j} TXTS pdresp {id} {}:{k} {t3}", hex(&self.w.own_clock)));
+        if self.dead {
+            return;
+        }
+        let Some(fu) = sent(&obs, j, "gen") else { return };
+        // the residence time of the way back lands in the response or in its follow-up
+        let (c_resp, c_fu) = if rng.chance(1, 2) { (r2, 0) } else { (0, r2) };
+        let ops = [
+            format!("P{k} TXTS pdreq {id} {t1}"),
+            format!("P{k} EVT {} {t4}", add_corr(&resp, (c_resp >> 16) as i64)),
+            format!("P{k} GEN {}", add_corr(&fu, (c_fu >> 16) as i64)),
+        ];
+        let order: &[usize] = *rng.pick(&[&[0usize, 1, 2][..], &[0, 1, 2], &[1, 0, 2], &[1, 2, 0], &[2, 1, 0], &[0, 2, 1]]);
+        let mut measured = false;
+        for &x in order {
+            if self.dead {
+                return;
+            }
+            let op = ops[x].clone();
+            let obs = self.emit(op.clone());
+            for item in obs.split(" | ").next().unwrap_or("").split(" ; ") {
+                let Some(r) = item.strip_prefix(&format!("P{k}:meas ")) else { continue };
+                let f: Vec<&str> = r.split_whitespace().collect();
+                if f.len() != 6 || f[3] == "-" {
+                    continue;
+                }
+                measured = true;
+                if f[3].parse::<i128>().ok() != Some(d as i128) {
+                    self.out.oracle("C14", "peer-delay-not-the-link-delay", &format!("{op} -> {item}: request of port {k} answered by port {j} of the same instance over a link of one-way delay {d} (residence {r1} on the way out, {r2} on the way back, both in the correction fields): peer delay {} was handed to the filter", f[3]));
+                }
+            }
+        }
+        if measured {
+            self.out.count("gen.pdelay-loop-measured");
+        }
+    }
+
     /// one random step of the mixed alphabet, biased by what the ports are doing
     pub fn step(&mut self, rng: &Prng) {
         let any_slave = self.w.ports.iter().any(|p| p.state == "Slave");
@@ -1101,7 +1200,7 @@ impl<'a> Gen<'a> {
             return self.exchange(rng);
         }
         if any_p2p && (30..40).contains(&r) {
-            return self.pdelay_exchange(rng);
+            return if r < 33 { self.pdelay_loop(rng) } else { self.pdelay_exchange(rng) };
         }
         if !any_slave && r < 12 {
             return self.announce_burst(rng);
@@ -1719,7 +1818,14 @@ pub fn generate_timed(out: &mut Out, rng: &Prng, thorough: bool) {
             let tainted = g.timed.as_ref().unwrap().ports[k - 1].tainted;
             // a clock of class 1..127 never becomes Slave (decision P1 instead): IEEE 1588-2019 figure 33
             let class_now: u32 = g.last_obs.split(" | ").find(|p| p.starts_with("DF ")).and_then(|d| d.split_whitespace().nth(1)).and_then(|x| x.parse().ok()).unwrap_or(248);
-            let expect_slave = !pv.master_only && acceptable && g.w.own_p1 > 0 && pv.state != "Faulty" && !tainted && !(1..=127).contains(&class_now);
+            // another port already follows a master that outranks even this one (a generated foreign master with
+            // priority1 0, class 0 and a better accuracy): port k is then rightly Master or Passive — which of the
+            // two masters wins is C05's question, not this one's
+            let outranked = g.w.ports.iter().enumerate().any(|(j, p)| j != k - 1 && p.state == "Slave");
+            if outranked {
+                g.out.count("c12.master-outranked");
+            }
+            let expect_slave = !pv.master_only && acceptable && g.w.own_p1 > 0 && pv.state != "Faulty" && !tainted && !(1..=127).contains(&class_now) && !outranked;
             g.out.count("c12.master-runs");
             if expect_slave && pv.state != "Slave" {
                 g.out.oracle("C12", "not-slave-of-steady-better-master", &format!("{} -> port {k} is {} after 8 announce intervals of a better master (priority1 0)", g.last_op, pv.state));
